@@ -763,6 +763,14 @@ func vpH_C10_mutations() {
 			vpAssert(msg != nil && msg.ClientMsgLabel() == label, "C10.parsed-type-matches-label")
 		}
 	}
+	// decoders keep no state: whatever happened above, a well-formed value still round-trips
+	vpJTrailing = false
+	fresh := &ReqFilter{Kinds: []int64{vpInt64("fresh.kind")}, Limit: vpGenOptInt("fresh.limit")}
+	fb, err := fresh.MarshalJSON()
+	vpAssert(err == nil, "C10.encodes")
+	var back ReqFilter
+	vpAssert(back.UnmarshalJSON(fb) == nil, "C10.decodes-what-was-encoded")
+	vpAssert(vpFiltersEqual(fresh, &back), "C10.decoder-keeps-no-state")
 	vpReach("end")
 }
 
